@@ -270,6 +270,42 @@ pub fn call_templates() -> Vec<Vec<Stmt>> {
             out.push(vec![Stmt::Let("teller".into(), Expr::Int(0)), spoor.clone(), drie.clone(), Stmt::Expr(use_), Stmt::Expr(id("teller"))]);
         }
     }
+    // half-evaluated expressions survive the call: the left operand (a global, a local, a literal, an element) has been
+    // evaluated when the callee changes the variable it came from - for every binary operator, in an array literal, in an
+    // argument list, in an index, at top level and inside a function
+    {
+        let bump = Stmt::Expr(Expr::Func { name: "bump".into(), params: vec![], body: vec![
+            Stmt::Expr(Expr::Assign(b(id("x")), b(infix("+", id("x"), Expr::Int(10))))),
+            Stmt::Expr(Expr::Int(5)),
+        ] });
+        let zet = Stmt::Expr(Expr::Func { name: "zet".into(), params: vec![], body: vec![
+            Stmt::Expr(Expr::Assign(b(Expr::Index(b(id("rij")), b(Expr::Int(0)))), b(Expr::Int(50)))),
+            Stmt::Expr(Expr::Int(1)),
+        ] });
+        let cb = || call("bump", vec![]);
+        let mut uses: Vec<Expr> = Vec::new();
+        for op in ["+", "-", "*", "/", "%", "==", "!=", "<", "<=", ">", ">="] {
+            uses.push(infix(op, id("x"), cb()));
+            uses.push(infix(op, cb(), id("x")));
+            uses.push(infix(op, Expr::Int(5), cb()));
+        }
+        uses.push(infix("+", infix("+", id("x"), cb()), id("x")));
+        uses.push(Expr::Array(vec![id("x"), cb(), id("x")]));
+        uses.push(call("print", vec![Expr::Str("{} {} {}".into()), id("x"), cb(), id("x")]));
+        uses.push(infix("+", Expr::Index(b(id("rij")), b(Expr::Int(0))), call("zet", vec![])));
+        uses.push(Expr::Index(b(id("rij")), b(infix("-", call("zet", vec![]), Expr::Int(1)))));
+        uses.push(infix("*", id("x"), infix("+", cb(), id("x"))));
+        for u in uses {
+            // at top level
+            out.push(vec![Stmt::Let("x".into(), Expr::Int(1)), Stmt::Let("rij".into(), Expr::Array(vec![Expr::Int(7), Expr::Int(8)])),
+                bump.clone(), zet.clone(), Stmt::Let("r".into(), u.clone()), Stmt::Expr(Expr::Array(vec![id("r"), id("x"), id("rij")]))]);
+            // the same expression as the body of a function (the variable stays a global)
+            out.push(vec![Stmt::Let("x".into(), Expr::Int(1)), Stmt::Let("rij".into(), Expr::Array(vec![Expr::Int(7), Expr::Int(8)])),
+                bump.clone(), zet.clone(),
+                Stmt::Expr(Expr::Func { name: "doe".into(), params: vec![], body: vec![Stmt::Expr(u.clone())] }),
+                Stmt::Let("r".into(), call("doe", vec![])), Stmt::Expr(Expr::Array(vec![id("r"), id("x"), id("rij")]))]);
+        }
+    }
     out.push(vec![
         // fib: two live activations of the same function with different arguments
         Stmt::Expr(Expr::Func { name: "fib".into(), params: vec!["n".into()], body: vec![
